@@ -970,6 +970,9 @@ impl<'a> VisitMut for Rw<'a> {
                     if matches!(op, Add(_)) && (self.opts.extra.get("usize_add_diverges").map(|v| v == "all").unwrap_or(false) || (self.opts.extra.contains_key("usize_add_diverges") && matches!(strip_paren_expr(r), Expr::Lit(x) if matches!(x.lit, syn::Lit::Int(_))))) {
                         self.fire("R-ADD.diverge");
                         replacement = Some(parse_quote!(#l = add_or_panic(#l, #r)));
+                    } else if matches!(op, Sub(_)) && self.opts.extra.contains_key("usize_sub_diverges") && matches!(strip_paren_expr(r), Expr::Lit(x) if matches!(x.lit, syn::Lit::Int(_))) {
+                        self.fire("R-SUB.diverge");
+                        replacement = Some(parse_quote!(#l = sub_or_panic(#l, #r)));
                     } else {
                         replacement = Some(parse_quote!(#l = #l #op (#r)));
                     }
@@ -980,7 +983,7 @@ impl<'a> VisitMut for Rw<'a> {
                     let r = strip_paren_expr(&b.right);
                     self.fire("R-ADD.diverge");
                     replacement = Some(parse_quote!(add_or_panic(#l, #r)));
-                } else if matches!(b.op, Sub(_)) && self.opts.extra.contains_key("usize_sub_diverges") && matches!(&*b.right, Expr::Lit(l) if matches!(l.lit, syn::Lit::Int(_))) {
+                } else if matches!(b.op, Sub(_)) && self.opts.extra.contains_key("usize_sub_diverges") && matches!(strip_paren_expr(&b.right), Expr::Lit(l) if matches!(l.lit, syn::Lit::Int(_))) {
                     // R-SUB.diverge: `n - k` on usize panics on underflow in a debug build (and the wrapped value is
                     // rejected by the following bounds-checked access in release): modelled as diverging
                     let l = &b.left;
